@@ -409,13 +409,13 @@ def cleanup(d):
 
 
 def differential(rep, binary, cases, sdir, tag, canon=None, oracle=None, clause=None, nontrivial=None,
-                 abort_fields=None, impl_args=(), model_cases=None):
+                 abort_fields=None, impl_args=(), model_cases=None, impl_env=None):
     """Runs implementation and extracted model on the same cases.
     canon(case, line) -> canonical form; oracle(case, impl_line) -> None | message (property-level, independent);
     clause(case) -> name of the clause (for known-finding keys)."""
     path = os.path.join(sdir, tag + ".cases")
     write_cases(path, cases)
-    impl = run_impl(binary, path, args=impl_args)
+    impl = run_impl(binary, path, args=impl_args, env=impl_env)
     if model_cases is not None:
         mpath = os.path.join(sdir, tag + ".mcases")
         write_cases(mpath, model_cases)
@@ -430,7 +430,7 @@ def differential(rep, binary, cases, sdir, tag, canon=None, oracle=None, clause=
         probe = os.path.join(sdir, tag + ".probe")
         for k, c in enumerate(cases[:60]):
             write_cases(probe, [c])
-            o = run_impl(binary, probe, args=impl_args)
+            o = run_impl(binary, probe, args=impl_args, env=impl_env)
             if len(o) > 1 and o[-1].startswith("ABORT-AT-EXIT"):
                 culprit = c; reason = o[-1]; break
         f = dict(kind="abort", clause="at-exit", reason=re.sub(r"\d+", "N", reason[:60]), has_input=culprit is not None)
